@@ -30,6 +30,15 @@ def gen_prog(rng: random.Random) -> dict:
     ops = []
     kinds = []          # 't' | 'f'
     t0 = 1735689600 * NS + rng.randrange(0, 400) * DAY
+    # a third of the programs live on a day on which Europe/Berlin (the zone of these runs) repeats or skips 02:00-03:00:
+    # times of day and bounds fall into that hour, the probes walk through the day (an object with a history must
+    # answer like a fresh one there too)
+    dst_day = rng.choice([None, None, 1761440400, 1743296400])       # 2025-10-26T01:00Z / 2025-03-30T01:00Z
+
+    def tod():
+        if dst_day is not None and rng.random() < 0.7:
+            return (2 * 3600 + rng.randrange(0, 60) * 60) * NS
+        return rng.randrange(0, 86400) * NS
 
     def trigs():
         return [i for i, k in enumerate(kinds) if k == 't']
@@ -43,7 +52,7 @@ def gen_prog(rng: random.Random) -> dict:
         T, Fi = trigs(), filts()
         if not T or p < 0.18:
             if rng.random() < 0.5:
-                ops.append(['time', rng.randrange(0, 86400) * NS, rng.choice(SK), rng.choice(RP)]); kinds.append('t')
+                ops.append(['time', tod(), rng.choice(SK), rng.choice(RP)]); kinds.append('t')
             else:
                 ops.append(['interval', rng.choice([None, t0, t0 - 5 * HOUR]), rng.choice([HOUR, 90 * MIN, DAY, 37 * MIN + 11 * NS])]); kinds.append('t')
         elif p < 0.36 or not Fi:
@@ -79,12 +88,14 @@ def gen_prog(rng: random.Random) -> dict:
             elif k == 'jitter':
                 ops.append(['jitter', i, rng.choice([0, 10 * NS, -60 * NS]), rng.choice([60 * NS, 120 * NS])])
             else:
-                ops.append([k, i, rng.randrange(0, 86400) * NS, rng.choice(SK), rng.choice(RP)])
+                ops.append([k, i, tod(), rng.choice(SK), rng.choice(RP)])
             kinds.append('t')
         # an only_on on a trigger that already has a filter raises and the slot becomes an error object
         if ops[-1][0] == 'only_on':
             pass
     probes = [t0 + rng.randrange(0, 30) * DAY + rng.randrange(0, 86400) * NS for _ in range(2)]
+    if dst_day is not None:
+        probes = [dst_day * NS + d * MIN for d in (-150, -45, -20, 25, 50, 130)]
     return {'ops': ops, 'probes': probes}
 
 
